@@ -175,6 +175,20 @@ def run_driver(prog, rep, rule="C01.D"):
         else:
             ok, msg = False, "no plain forward loop over self.attributes"
         rep.check(ok, rule, "%s :: attributes in order" % f.id, f.loc(), "for attr in &self.attributes: " + msg, msg)
+    # attribute statements: every attribute goes through Attribute::execute / execute_lazy (the only place that expands shorthands)
+    for ty in ("tsg::ast::AddGraphNodeAttribute", "tsg::ast::AddEdgeAttribute"):
+        for f in [x for x in prog.find(self_ty=ty) if x.name in ("execute", "execute_lazy")]:
+            body, tr = f.body, Tracer(f.body)
+            n += 1
+            loops = forward_loops(body, tr, r"arg:self\.attributes$")
+            calls = [b for b, t in body.calls() if is_callee(t, r"<impl tsg::ast::Attribute>::%s$" % f.name)]
+            if len(loops) == 1:
+                ok, msg = once_per_iteration(body, loops[0][0], loops[0][1], calls)
+            else:
+                internal = internal_iteration(prog, f, tr, r"arg:self\.attributes\)*$", r"<impl tsg::ast::Attribute>::%s$" % f.name)
+                ok, msg = internal if internal is not None else (False, "no plain forward loop over self.attributes")
+            rep.check(ok, rule, "%s :: attributes through Attribute::%s" % (f.id, f.name), f.loc(), "for attr in &self.attributes: " + msg,
+                      "the attributes of the statement are not each handed to Attribute::%s (the only place that expands attribute shorthands): %s" % (f.name, msg))
     # attribute: value evaluated once, before the shorthand lookup
     for f in [x for x in prog.find(self_ty="tsg::ast::Attribute") if x.name in ("execute", "execute_lazy")]:
         body, tr = f.body, Tracer(f.body)
